@@ -73,6 +73,11 @@ META["C13"] = dict(
     note=CONV_NOTE + " Spec/Lists.lean is a transcription of the 3GPP figures; tools/harness/convert13.go holds a second independent set of decoders used as the oracle.",
     technique="Lean 4 proof (library decoder = specification decoder for all bytes; specification decoder o library encoder = id for all lists in range) + Go/Lean correspondence + independent-decoder oracle on the real code")
 
+META["C15"] = dict(
+    text="Kernel-checked on the hand model: QoSFlowDescs.UnmarshalBinary and QoSRules.UnmarshalBinary return a value or an error for EVERY byte string and their loops finish within a fuel bound because each iteration consumes an octet (progress lemmas; fuel exhaustion is a panic in the model); an unknown parameter identifier / component type that is reached is an error; for every well-formed description list (<= 63 parameters of the 7 kinds, op <= 7) and rule list (op <= 7, <= 15 filters, ids/directions < 16, QFI < 64, all 18 component types with their field constraints, <= 255 octets of components per filter, delete lists) parse(serialise x) = x (induction over lists; big-endian packing via toNat/omega; header bit facts by decide over <= 256 cases); the serialised form is spelled out in numbers per Figures 9.11.4.12.x / 9.11.4.13.x. Defect F8 was repaired in /repo (fix: commit).",
+    note="Trusted: Lean kernel; the hand model Model/Qos.lean (tied by the correspondence run on generated wire inputs and values); binary.BigEndian / bytes.Buffer semantics modelled; the independent figure-based encoders in tools/harness/qos.go (layout oracle).",
+    technique="Lean 4 proof (totality with progress measure, round trip by list induction, bit-field facts by decide) on a hand model + Go/Lean correspondence + totality/unknown-identifier/round-trip/layout oracle on the real code")
+
 NOT_APPLICABLE = {
  "C01": "check not built yet in this round (Lean model + correspondence planned, see DESIGN.md section 4); not claimed until it runs",
  "C02": "check not built yet in this round (Lean model + correspondence planned, see DESIGN.md section 4); not claimed until it runs",
